@@ -383,6 +383,15 @@ class err_handler(object):
         logger.error(sout)
         #print(self.cur_ele_node.errors)
 
+    def at_trailer(self, loop_node):
+        """
+        A GE or IEA is being handled: the segment before it is no longer the
+        current one
+        """
+        if loop_node is not None:
+            self.cur_seg_node = loop_node
+            self.seg_node_added = True
+
     def close_isa_loop(self, node, seg, src):
         """
         """
